@@ -2,7 +2,7 @@
    operations, an operation history, and the rendering of observations in the
    harness' text format.  Definitions only. *)
 From GoFlags Require Import Base.Str Base.Utf8 Golib.Strings Golib.Strconv
-     Model.Types Model.Tag Model.Scan Model.Lookup Model.Convert Model.State Model.Closest Model.Parse Model.Ini.
+     Model.Types Model.Tag Model.Scan Model.Lookup Model.Convert Model.State Model.Closest Model.Help Model.Parse Model.Ini.
 Open Scope N_scope.
 
 Inductive attach_op :=
@@ -13,7 +13,9 @@ Inductive attach_op :=
 Inductive op :=
 | OpParse (args : list str)
 | OpIni (text : str) (as_defaults : bool)
-| OpWriteIni (opts : N).      (* IniOptions bit mask: 2 include defaults, 4 comment defaults, 8 include comments *)
+| OpWriteIni (opts : N)       (* IniOptions bit mask: 2 include defaults, 4 comment defaults, 8 include comments *)
+| OpHelp                      (* Parser.WriteHelp *)
+| OpMan.                      (* Parser.WriteManPage, date pinned by SOURCE_DATE_EPOCH=86400 *)
 
 Record scenario := {
   sc_cfg : pconfig;
@@ -45,7 +47,7 @@ Fixpoint cmd_update (c : command) (path : list nat) (f : command -> command) : c
 Definition root_cmd (cfg : pconfig) (subopt : bool) : command :=
   Command {| c_name := pc_name cfg; c_aliases := []; c_sub_optional := subopt; c_args_required := false;
              c_hidden := false; c_exec := ExNone; c_usage := None; c_has_help := false |}
-          (Group (mk_ginfo [] []) [] []) [] [].
+          (Group (mk_ginfo (pc_shortdesc cfg) (pc_longdesc cfg)) [] []) [] [].
 
 (* Command.AddGroup(short, long, data) on the command at [path] *)
 Definition add_group_at (delim : str) (w : world) (path : list nat) (short long : str) (fs : list field)
@@ -67,6 +69,10 @@ Definition add_command_at (delim : str) (w : world) (path : list nat) (name shor
   ' (g, sc) <- scan_type delim short long fs (w_attached w) ;;
   let ci := {| c_name := name; c_aliases := aliases; c_sub_optional := subopt; c_args_required := sa_argsreq sc;
                c_hidden := hidden; c_exec := exec; c_usage := usage; c_has_help := false |} in
+  (* Command.Hidden is the Hidden field of the embedded Group *)
+  let g := let 'Group gi os gs := g in
+           Group {| g_short := g_short gi; g_long := g_long gi; g_ns := g_ns gi; g_envns := g_envns gi;
+                    g_hidden := hidden; g_builtin_help := false |} os gs in
   let newc := Command ci g (sa_args sc) (sa_cmds sc) in
   Ok {| w_tree := cmd_update (w_tree w) path (fun c =>
                     let 'Command pci pg pargs psubs := c in Command pci pg pargs (psubs ++ [newc]));
@@ -87,7 +93,14 @@ Section Run.
   Variable cfg : pconfig.
   Variable orc : oracles.
 
-  Definition help_text_stub (root : command) (r : rt) : str := [].
+  (* WriteHelp as seen by the built-in help option; a panic inside WriteHelp is
+     encoded in the text so that [help_text] can stay a total function *)
+  Definition help_panic_mark : str := s2l "<<PANIC-IN-WRITEHELP>>".
+  Definition help_text_stub (root : command) (r : rt) : str :=
+    match write_help cfg root r with
+    | Ok t => t
+    | _ => help_panic_mark
+    end.
 
   Fixpoint prologue_opts (ocs : list octx) (r : rt) : res rt :=
     match ocs with
@@ -204,7 +217,13 @@ Definition run_op (sc : scenario) (w : world) (o : op) : world * str * bool (* s
   match o with
   | OpParse args =>
     match parse_args (sc_cfg sc) (sc_orc sc) w args with
-    | Ok (w', pres) => (w', render_op sc w' "parse" None (pr_err pres) (pr_ret pres) [], false)
+    | Ok (w', pres) =>
+      match pr_err pres with
+      | Some (EFlags ErrHelp m) =>
+        if str_eqb m help_panic_mark then (w, render_op sc w "parse" (Some (s2l "PANIC:strings: negative Repeat count")) None None [], true)
+        else (w', render_op sc w' "parse" None (pr_err pres) (pr_ret pres) [], false)
+      | _ => (w', render_op sc w' "parse" None (pr_err pres) (pr_ret pres) [], false)
+      end
     | Err e => (w, render_op sc w "parse" (Some (s2l "MODEL-ERR")) (Some e) None [], true)
     | Panic t => (w, render_op sc w "parse" (Some (s2l "PANIC:" ++ t)) None None [], true)
     end
@@ -214,7 +233,7 @@ Definition run_op (sc : scenario) (w : world) (o : op) : world * str * bool (* s
     | Err e => (w, render_op sc w "ini" None (Some e) None [], false)
     | Panic t => (w, render_op sc w "ini" (Some (s2l "PANIC:" ++ t)) None None [], true)
     | Ok f =>
-      match ini_apply (sc_orc sc) (pc_nsdelim cfg) (help_text_stub (w_tree w)) (po_ignore (pc_opts cfg)) asdef (w_tree w) f (w_rt w) with
+      match ini_apply (sc_orc sc) (pc_nsdelim cfg) (help_text_stub cfg (w_tree w)) (po_ignore (pc_opts cfg)) asdef (w_tree w) f (w_rt w) with
       | Ok (r', e) =>
         let w' := {| w_tree := w_tree w; w_rt := r'; w_internal := w_internal w; w_attached := w_attached w |} in
         (w', render_op sc w' "ini" None e None [], false)
@@ -229,6 +248,14 @@ Definition run_op (sc : scenario) (w : world) (o : op) : world * str * bool (* s
     | Err e => (w, render_op sc w "writeini" (Some (s2l "MODEL-ERR")) (Some e) None [], true)
     | Panic t => (w, render_op sc w "writeini" (Some (s2l "PANIC:" ++ t)) None None [], true)
     end
+  | OpHelp =>
+    match write_help (sc_cfg sc) (w_tree w) (w_rt w) with
+    | Ok t => (w, render_op sc w "help" None None None (line "bytes" (hex_of_str t)), false)
+    | Err e => (w, render_op sc w "help" (Some (s2l "MODEL-ERR")) (Some e) None [], true)
+    | Panic t => (w, render_op sc w "help" (Some (s2l "PANIC:" ++ t)) None None [], true)
+    end
+  | OpMan =>
+    (w, render_op sc w "man" None None None (line "bytes" (hex_of_str (write_man (sc_cfg sc) (w_tree w) (s2l "2 January 1970")))), false)
   end.
 
 Fixpoint run_ops (sc : scenario) (w : world) (ops : list op) : str :=
